@@ -246,8 +246,12 @@ def run(ctx):
                         # error's answer (a second status line), not the document
                         ok_status = {"http": rb"HTTP/1\.0 200 OK\r\n", "https": rb"HTTP/1\.0 200 OK\r\n", "wap": rb"HTTP/1\.0 200 OK\r\n",
                                      "gemini": rb"2\d ", "spartan": rb"2 "}.get(proto)
-                        if ok_status and re.match(ok_status, r.out):
-                            why = "two status lines: a success status, then the answer to an error (" + excs[0] + ")"
+                        # (FileNotFound is also logged for every member a listing skips: that is not an answer to an error.
+                        #  A not-found raised late shows as a second HTTP status line at the start of the body.)
+                        late = [c for c in excs if c != "FileNotFound"]
+                        body_ = r.out[r.out.find(b"\r\n\r\n") + 4:] if proto in ("http", "https", "wap") else b""
+                        if ok_status and re.match(ok_status, r.out) and (late or re.match(rb"HTTP/1\.0 \d{3} ", body_)):
+                            why = "two status lines: a success status, then the answer to an error (" + (late or excs)[0] + ")"
                     if why and not unhandled:
                         # (the cause, where the log names one the kernel reports, is part of the key: one finding per cause)
                         cause = ":exec-format-error" if any("Exec format error" in ln for ln in r.log) else ""
@@ -300,6 +304,25 @@ def run(ctx):
     res.extra["slowest_request_s"] = round(slowest, 3)
     res.sample({"request": b"/mail/box.mbox|/MBOX-MESSAGE/9999\r\n", "expect": "not-found in the protocol's form"})
     res.sample({"request": b"gemini://h/a%0d%0ab\r\n", "expect": "one status line"})
+    # ---- a client that keeps its sending side open while it waits (netcat, a browser): complete requests are answered at
+    # once, whatever they lack (no header lines at all, lines without a colon, no blank line needed by the protocol)
+    tree = pyg.Tree()
+    try:
+        trees.standard(tree, hostile_content=False)
+        cfg = pyg.make_config(tree.root)
+        for rq, tls in ((b"GET / HTTP/1.0\r\n\r\n", False), (b"GET /README HTTP/1.0\r\n\r\n", False), (b"HEAD /docs HTTP/1.0\r\n\r\n", False),
+                        (b"GET /README HTTP/1.0\r\nno colon here\r\n\r\n", False), (b"GET /README HTTP/1.0\r\nHost: h\r\n\r\n", False),
+                        (b"GET /wap/README HTTP/1.0\r\n\r\n", False), (b"GET /README HTTP/1.0\n\n", False),
+                        (b"/README\r\n", False), (b"/docs\t$\r\n", False), (b"h /README 0\r\n", False), (b"gemini://h/README\r\n", True)):
+            r, in_time = pyg.request_live(rq, cfg, tls=tls)
+            res.evaluations += 1
+            res.nontrivial.add(("live", rq))
+            if not in_time or r is None or not r.out:
+                res.violation("C03:hang:live-client", "a complete request from a client that keeps its sending side open is not answered in bounded time",
+                              {"request": rq, "tls": tls}, observed={"answered_within_limit": in_time, "out": (r.out[:80] if r is not None and r.out else None)},
+                              required="the response, at once", replay={"handlers": "shipped", "request_latin1": rq.decode("latin-1"), "tls": tls, "live": True})
+    finally:
+        tree.close()
     # end to end: Model/Serve.answer (request line -> whole response) vs the real server, byte for byte
     import sitecorr
     sitecorr.compare_answers(ctx, res, ctx.n(3, 30), "C03")
